@@ -33,7 +33,7 @@ package types
 //@ requires lockupsNonNegative(c)
 //@ ensures C12/unique-denoms: uniqueDenoms(c)
 //@ ensures C12/lockups-non-negative: amount >= 0 ==> lockupsNonNegative(c)
-//@ ensures C12/committed-delta: committedOf(c, d) == old(committedOf(c, d)) + ite(d == denom, amount, 0)
+//@ ensures C12,C02/committed-delta: committedOf(c, d) == old(committedOf(c, d)) + ite(d == denom, amount, 0)
 //@ ensures C12/lockup-recorded: lockedFor(c, d, now) == old(lockedFor(c, d, now)) + ite(d == denom && unlockTime != 0 && unlockTime > now, amount, 0)
 //@ ensures C12/claimed-untouched: amt(c.Claimed, d) == old(amt(c.Claimed, d))
 //@ ensures C12/creator-untouched: c.Creator == old(c.Creator)
@@ -46,7 +46,7 @@ package types
 //@ requires amount >= 0
 //@ ensures C12/unique-denoms: uniqueDenoms(c)
 //@ ensures C12/lockups-non-negative: lockupsNonNegative(c)
-//@ ensures C12/committed-delta: err == nil ==> committedOf(c, d) == old(committedOf(c, d)) - ite(d == denom, amount, 0)
+//@ ensures C12,C02/committed-delta: err == nil ==> committedOf(c, d) == old(committedOf(c, d)) - ite(d == denom, amount, 0)
 //@ ensures C12/no-overdraw: err == nil ==> old(committedOf(c, denom)) >= amount
 //@ ensures C12/lock-respected: err == nil && !isLiquidation ==> committedOf(c, denom) >= old(lockedFor(c, denom, currTime))
 //@ ensures C12/claimed-untouched: amt(c.Claimed, d) == old(amt(c.Claimed, d))
